@@ -9,6 +9,7 @@ import (
 	"os/exec"
 	"path/filepath"
 	"regexp"
+	"runtime/pprof"
 	"sort"
 	"strconv"
 	"strings"
@@ -35,18 +36,18 @@ var repoSrc = func() string {
 }()
 
 type Job struct {
-	Prop    string           `json:"prop"`
-	Tier    string           `json:"tier"`
-	Fn      string           `json:"fn"`
-	Pkg     string           `json:"pkg"` // relative dir, e.g. redis-shake/common
-	Params  map[string]int64 `json:"params"`
-	Opts    map[string]int64 `json:"opts"`
-	Concrete bool            `json:"concrete,omitempty"`
-	ForcedModel map[string]uint64 `json:"forced_model,omitempty"`
-	ForcedSchedule []int     `json:"forced_schedule,omitempty"`
-	Known   []string         `json:"known,omitempty"`
-	Cross   []string         `json:"cross,omitempty"`
-	Solver  string           `json:"solver,omitempty"`
+	Prop           string            `json:"prop"`
+	Tier           string            `json:"tier"`
+	Fn             string            `json:"fn"`
+	Pkg            string            `json:"pkg"` // relative dir, e.g. redis-shake/common
+	Params         map[string]int64  `json:"params"`
+	Opts           map[string]int64  `json:"opts"`
+	Concrete       bool              `json:"concrete,omitempty"`
+	ForcedModel    map[string]uint64 `json:"forced_model,omitempty"`
+	ForcedSchedule []int             `json:"forced_schedule,omitempty"`
+	Known          []string          `json:"known,omitempty"`
+	Cross          []string          `json:"cross,omitempty"`
+	Solver         string            `json:"solver,omitempty"`
 }
 
 func (j *Job) Name() string {
@@ -63,15 +64,15 @@ func (j *Job) Name() string {
 }
 
 type PropSpec struct {
-	ID       string
-	Jobs     []Job
-	Pkgs     map[string]bool
-	Opts     map[string]int64
-	Assume   []string
-	Outside  []string
-	Stubs    []string
-	Replay   string // N or E
-	ReplayE  map[string]bool
+	ID        string
+	Jobs      []Job
+	Pkgs      map[string]bool
+	Opts      map[string]int64
+	Assume    []string
+	Outside   []string
+	Stubs     []string
+	Replay    string // N or E
+	ReplayE   map[string]bool
 	SolverFor map[string]string
 }
 
@@ -208,6 +209,13 @@ type workerInit struct {
 }
 
 func workerMain() {
+	if pf := os.Getenv("VF_PPROF"); pf != "" {
+		// development aid: CPU profile of a worker
+		if f, err := os.Create(fmt.Sprintf("%s.%d", pf, os.Getpid())); err == nil {
+			pprof.StartCPUProfile(f)
+			defer pprof.StopCPUProfile()
+		}
+	}
 	in := bufio.NewReaderSize(os.Stdin, 1<<20)
 	out := bufio.NewWriter(os.Stdout)
 	enc := json.NewEncoder(out)
